@@ -30,7 +30,15 @@ RULE = (
     "the input's criteria, objectives and weights. ONE OBJECT, TWO MATRICES: the same pipeline object (and single transformer "
     "object) applied consecutively to two matrices with identical labels, objectives and dtypes whose weights / values differ "
     "slightly (one weight + 3e-9, one cell x (1 + 1e-7), both) or clearly (or not at all); each output is judged against ITS "
-    "OWN input by the same part-by-part bit comparison, and must be a new object. One extra case per run holds the table extracted from the tree (class x target -> rewritten keys). "
+    "OWN input by the same part-by-part bit comparison, and must be a new object. INVERSION THAT LEAVES THE NUMBERS AS THEY "
+    "ARE: every objective inverter x {alone, alone inside a pipeline, a step between weight-only steps and domain-free later "
+    "steps} on matrices where one / every / some of the MINIMISE criteria hold only values the inversion maps to themselves "
+    "(all 1, only +-1, all -1 for the 1/x inverters; all 0, 0.0 / -0.0 for NegateMinimize; int64 and float64 columns) - every "
+    "objective must still come back maximise. WHOLE NUMBERS FLOAT64 CANNOT HOLD: every weighter x parameters (alone, alone "
+    "inside a pipeline, in pipelines of 2-4 weight-only steps: weighters, weight-target scalers, user transformers that do "
+    "not return the matrix) on all-int64 and all-uint64 matrices (built without passing through float) with one or more "
+    "criteria of odd values in 2**53 .. 2**63 (2**64 for uint64), some negative for int64 - the matrix must come back with "
+    "the same integer dtype and the same bytes. Both families appear in every run. One extra case per run holds the table extracted from the tree (class x target -> rewritten keys). "
     "Non-trivial: the transform answered and changed at least one part; distinct by case hash."
 )
 ASSUMPTIONS = [
@@ -441,13 +449,147 @@ def _sequence_cases(rng, n_pipe, n_single):
     return out
 
 
-def _random_cases(rng, n_sweeps, n_user, n_pipe, n_mask=1, n_seq=(60, 40)):
+# values an inversion maps to themselves: 1/x on 1 and -1, -x on 0 (0.0 and -0.0 compare equal)
+FIXED_FORMS = {"InvertMinimize": ["ones", "pm-ones", "minus-ones"], "MinimizeToMaximize": ["ones", "pm-ones", "minus-ones"],
+               "NegateMinimize": ["zeros", "signed-zeros"]}
+FIXED_WHICH = ["every-criterion", "every-minimise", "some-minimise"]
+SHAPES = ["alone", "alone-in-pipeline", "pipeline"]
+WEIGHT_SCALERS = ["MaxAbsScaler", "MaxScaler", "SumScaler", "VectorScaler", "PushNegatives", "AddValueToZero"]
+
+
+def _fixed_value(rng, form, dt):
+    if form in ("ones", "minus-ones", "pm-ones"):
+        x = {"ones": 1, "minus-ones": -1, "pm-ones": rng.choice([1, -1])}[form]
+        return x if dt == "int64" else float(x)
+    if dt == "int64":
+        return 0
+    return rng.choice([0.0, -0.0]) if form == "signed-zeros" else 0.0
+
+
+def _weight_only_step(rng, statistical=False):
+    """a step that leaves the matrix alone whatever the matrix holds (positive weights stay positive and finite)"""
+    kind = rng.choice(["equal", "scaler", "scaler", "user"] + (["stat", "stat", "stat"] if statistical else []))
+    if kind == "equal":
+        return {"k": "weighter", "cls": "EqualWeighter", "params": _weighter_params(rng, "EqualWeighter")}
+    if kind == "stat":
+        cls = rng.choice(WEIGHTERS[1:])
+        return {"k": "weighter", "cls": cls, "params": _weighter_params(rng, cls)}
+    if kind == "scaler":
+        cls = rng.choice(WEIGHT_SCALERS)
+        return {"k": "scaler", "cls": cls, "target": "weights", "params": _scaler_params(rng, cls)}
+    spec = _user_spec(rng, mode="same")
+    spec["returns"] = [r for r in spec["returns"] if r != "matrix"]
+    return spec
+
+
+def _fixed_point_case(rng, cls, form, which, shape):
+    """an objective inverter over a matrix where minimise criteria hold only values the inversion maps to themselves"""
+    dm = _dm(rng, positive=(cls != "NegateMinimize") or rng.random() < 0.5, min_m=1 if rng.random() < 0.15 else 2,
+             min_n=2 if which == "some-minimise" else 1)
+    n, m = len(dm["criteria"]), len(dm["matrix"])
+    if which == "every-criterion":  # the inversion changes no number at all
+        obj, fixed = [-1] * n, list(range(n))
+    else:
+        k = rng.randint(2 if which == "some-minimise" else 1, n)
+        mins = sorted(rng.sample(range(n), k))
+        obj = [-1 if j in mins else 1 for j in range(n)]
+        fixed = mins if which == "every-minimise" else sorted(rng.sample(mins, rng.randint(1, k - 1)))
+    dm["objectives"] = obj
+    for j in fixed:
+        col = [_fixed_value(rng, form, dm["dtypes"][j]) for _ in range(m)]
+        if form == "pm-ones" and m >= 2 and len(set(col)) == 1:
+            col[rng.randrange(m)] = -col[0]
+        for row, x in zip(dm["matrix"], col):
+            row[j] = x
+    inv = {"k": "inverter", "cls": cls}
+    steps = [inv]
+    if shape == "pipeline":
+        before = [_weight_only_step(rng) for _ in range(rng.randint(0, 2))]
+        after = []
+        for _ in range(rng.randint(0 if before else 1, 2)):
+            r = rng.random()
+            if r < 0.4:
+                after.append(_weight_only_step(rng))
+            elif r < 0.6:  # every objective is maximise by now: any inverter is inside its domain
+                after.append({"k": "inverter", "cls": rng.choice(INVERTERS)})
+            elif r < 0.8:
+                c2 = rng.choice(["PushNegatives", "AddValueToZero"])
+                after.append({"k": "scaler", "cls": c2, "target": rng.choice(["matrix", "both"]), "params": _scaler_params(rng, c2)})
+            else:
+                after.append(_user_spec(rng, mode="same"))
+        steps = before + [inv] + after
+    return {"dm": dm, "steps": steps, "pipe": shape != "alone", "fixed_point": [cls, form, which, shape]}
+
+
+def _fixed_point_cases(rng, rounds):
+    """every inverter x every self-mapped value form x {every criterion, every minimise one, some of them} x shape"""
+    return [_fixed_point_case(rng, cls, form, which, shape) for _ in range(rounds) for cls in INVERTERS
+            for form in FIXED_FORMS[cls] for which in FIXED_WHICH for shape in SHAPES]
+
+
+def _bigint_dm(rng, dt, positive):
+    """an all-int64 / all-uint64 matrix (>= 3 alternatives, >= 2 criteria, no criterion constant - not even after a
+    conversion to float64) where one or more criteria hold odd values of magnitude above 2**53"""
+    top = 63 if dt == "uint64" else 62
+    m, n = rng.randint(3, 7), rng.randint(2, 5)
+    big = set(rng.sample(range(n), rng.randint(1, n)))
+    cols = []
+    for j in range(n):
+        while True:
+            if j in big:
+                e0, col = rng.randint(53, top), []
+                for _ in range(m):
+                    e = e0 if rng.random() < 0.7 else rng.randint(53, top)
+                    col.append(2 ** e + rng.randrange(1, 2 ** (e - 20), 2))  # odd and above 2**53: not a float64
+                if dt == "int64" and not positive and rng.random() < 0.5:
+                    col = [-v if rng.random() < 0.6 else v for v in col]
+            else:
+                col = [rng.randint(1 if positive else -16, 40) for _ in range(m)]
+            for i in range(1, m):
+                if rng.random() < 0.15:
+                    col[i] = col[rng.randrange(i)]
+            if len({float(v) for v in col}) > 1:
+                break
+        cols.append(col)
+    return {
+        "matrix": [[cols[j][i] for j in range(n)] for i in range(m)],
+        "dtypes": [dt] * n,
+        "exact_int": True,  # build_dm: straight into an integer array, never through float
+        "objectives": G.objectives(rng, n),
+        "weights": G.weights(rng, n, "dyadic"),
+        "alternatives": G.labels(rng, G.LABEL_POOL_ALT, m),
+        "criteria": G.labels(rng, G.LABEL_POOL_CRIT, n),
+        "family": "beyond-2**53",
+    }
+
+
+def _bigint_cases(rng, rounds):
+    """every weighter x {int64, uint64} x {alone, alone in a pipeline, among 2-4 weight-only steps}"""
+    out = []
+    for _ in range(rounds):
+        for cls in WEIGHTERS:
+            for dt in ("int64", "uint64"):
+                for shape in SHAPES:
+                    first = {"k": "weighter", "cls": cls, "params": _weighter_params(rng, cls)}
+                    steps = [first]
+                    if shape == "pipeline":
+                        steps += [_weight_only_step(rng, statistical=True) for _ in range(rng.randint(1, 3))]
+                        rng.shuffle(steps)
+                    entropy = any(s.get("cls") == "EntropyWeighter" for s in steps)
+                    dm = _bigint_dm(rng, dt, positive=entropy or dt == "uint64" or rng.random() < 0.5)
+                    out.append({"dm": dm, "steps": steps, "pipe": shape != "alone", "beyond_float": [cls, dt, shape]})
+    return out
+
+
+def _random_cases(rng, n_sweeps, n_user, n_pipe, n_mask=1, n_seq=(60, 40), n_fixed=1, n_big=2):
     cases = []
     for _ in range(n_sweeps):
         cases.extend(_every_builtin(rng))
         cases.extend(_empty_criterion_cases(rng))
     cases.extend(_sequence_cases(rng, *n_seq))
     cases.extend(_fn_mask_cases(rng, n_mask))
+    cases.extend(_fixed_point_cases(rng, n_fixed))
+    cases.extend(_bigint_cases(rng, n_big))
     for _ in range(n_user):
         dm, spec = _single(rng, "user")
         cases.append({"dm": dm, "steps": [spec], "pipe": rng.random() < 0.33})
@@ -459,11 +601,11 @@ def _random_cases(rng, n_sweeps, n_user, n_pipe, n_mask=1, n_seq=(60, 40)):
 def gen(ctx):
     rng = ctx.rng
     return [{"table": True}] + _random_cases(rng, ctx.n(5, 70), ctx.n(70, 1000), ctx.n(110, 1600), ctx.n(2, 20),
-                                             (ctx.n(70, 900), ctx.n(50, 600)))
+                                             (ctx.n(70, 900), ctx.n(50, 600)), ctx.n(2, 12), ctx.n(3, 20))
 
 
 def search_gen(ctx):
-    return _random_cases(ctx.rng, 12, 150, 250, 3, (150, 100))
+    return _random_cases(ctx.rng, 12, 150, 250, 3, (150, 100), 3, 4)
 
 
 # --------------------------------------------------------------------------- implementation side
@@ -492,7 +634,10 @@ def build_dm(d):
 
     import skcriteria as skc
 
-    arr = np.array([[np.nan if x is None else x for x in row] for row in d["matrix"]], dtype=float)
+    if d.get("exact_int"):  # whole numbers float64 cannot hold: straight into the integer array
+        arr = np.array(d["matrix"], dtype=np.dtype(d["dtypes"][0]))
+    else:
+        arr = np.array([[np.nan if x is None else x for x in row] for row in d["matrix"]], dtype=float)
     with warnings.catch_warnings():
         warnings.simplefilter("ignore")
         return skc.mkdm(arr, list(d["objectives"]), weights=np.array(d["weights"], dtype=float),
@@ -989,6 +1134,14 @@ def tags(case, obs):
                 t.append("user:relabels")
         else:
             t.append("cls:" + s["cls"])
+    if case.get("fixed_point"):
+        cls, form, which, shape = case["fixed_point"]
+        t.append("self-mapped-inversion:%s/%s/%s" % (cls, form, which))
+        t.append("self-mapped-inversion:" + shape)
+    if case.get("beyond_float"):
+        cls, dt, shape = case["beyond_float"]
+        t.append("beyond-2**53:%s/%s" % (cls, dt))
+        t.append("beyond-2**53:" + shape)
     if case.get("seq"):
         t.append("one-object-two-matrices:" + case["seq"])
         o2 = obs.get("second", {})
